@@ -1,4 +1,6 @@
 #include "iosim.hpp"
+#include <map>
+#include <vector>
 #include <sstream>
 
 using namespace jsoncons;
@@ -63,6 +65,13 @@ static Outcome entry(const std::string& which, const Delivery& d, const Ctx& cx)
         ojson j;
         if (which == "view") j = ojson::parse(jsoncons::string_view(B.data(), B.size()), opts);
         else if (which == "iter") j = ojson::parse(B.begin(), B.end(), opts);
+        else if (which == "typed") {
+            // typed decoding through the reflection traits (decode_json<std::map / std::vector>): the container follows the first significant character
+            size_t i = B.find_first_not_of(" \t\r\n");
+            if (i != std::string::npos && B[i] == '{') { auto m = decode_json<std::map<std::string, ojson>>(B, opts); j = ojson(json_object_arg); for (auto& kv : m) j.insert_or_assign(kv.first, kv.second); }
+            else if (i != std::string::npos && B[i] == '[') { auto v = decode_json<std::vector<ojson>>(B, opts); j = ojson(json_array_arg); for (auto& e : v) j.push_back(e); }
+            else j = decode_json<ojson>(B, opts);
+        }
         else {
             sim::SimStreambuf sb(B.data(), B.size(), d.getarea);
             sb.limits(4 * B.size() + 64 + 4 * (B.size() / d.getarea + 1), 64);
